@@ -113,7 +113,7 @@ ELEMENT_HINTS = {
 METHODS = {
     "decode": ("builtins.UnicodeDecodeError",),  # bytes.decode("unicode_escape") of a quoted limit such as "\x"
     "index": ("builtins.ValueError",),  # list.index
-    "parser.parse_args": ("builtins.SystemExit",),
+    "parser.parse_args": ("builtins.SystemExit",), "parser.parse_intermixed_args": ("builtins.SystemExit",),
     "parser.error": ("builtins.SystemExit",),  # ArgumentParser.error
     "loader.exec_module": (ANY,),  # plugin code
     "sheet_by_index": (ANY,),  # xlrd: IndexError for a missing sheet
